@@ -80,9 +80,29 @@ class CustomError(Exception):
 QUARTERS = [0.0, 0.25, 0.5, 0.75, 1.0]
 
 
+_TLS_HOOKS = TLS_SETUP + [h for h in TCP_HOOKS if h not in ("send_fail", "no_peername")]
+_PAIRS = [("tcp", h) for h in TCP_HOOKS] + [("tls", h) for h in _TLS_HOOKS] + [("udp", h) for h in UDP_HOOKS] * 2
+
+
+def _nominal_fault_time(proto: str, f: dict, hs_timeout: float | None) -> float:
+    """when the fault is expected to fire (virtual seconds from the start); only used to aim a healthy request at it"""
+    kind = f["kind"]
+    npre = f["n"] + (1 if f.get("onconn") == "gen" else 0)
+    t = f["t0"] + npre * f["gap"]
+    if kind == "hs_stall":
+        return f["t0"] + (60.0 if hs_timeout is None else hs_timeout)
+    if kind in SETUP_KINDS:
+        return f["t0"] + (0.0 if kind == "no_peername" else f["gap"])
+    if kind.endswith("thrown_timeout"):
+        return t + f["timeout"] + f["pre_sleep"]
+    if kind in ("onconn_coro", "onconn_gen_before", "on_disconnection_handler_closes") or (kind == "handle_before" and proto != "udp"):
+        return t + f["pre_sleep"]
+    return t + f["gap"] + f["pre_sleep"]
+
+
 @st.composite
 def st_case(draw: st.DrawFn, tier: str) -> dict:
-    proto = draw(st.sampled_from(["tcp", "tcp", "tls", "udp", "udp"]))
+    proto, kind = draw(st.sampled_from(_PAIRS))
     k = draw(st.integers(1, 3))
     healthy = []
     for _ in range(k):
@@ -97,12 +117,6 @@ def st_case(draw: st.DrawFn, tier: str) -> dict:
                 "y": draw(st.sampled_from([0, 0, 1, 2])),
             }
         )
-    if proto == "udp":
-        kind = draw(st.sampled_from(UDP_HOOKS))
-    elif proto == "tls":
-        kind = draw(st.sampled_from(TLS_SETUP * 2 + [h for h in TCP_HOOKS if h not in ("send_fail", "no_peername")]))
-    else:
-        kind = draw(st.sampled_from(TCP_HOOKS))
     exc = draw(st.sampled_from(EXC_NAMES))
     if kind.endswith(("thrown_parse", "thrown_timeout")):
         exc = draw(st.sampled_from(EXC_NAMES + ["reraise"] * 4))
@@ -125,19 +139,31 @@ def st_case(draw: st.DrawFn, tier: str) -> dict:
         "gap": draw(st.sampled_from([0.25, 0.5, 1.0])),
         "pre_sleep": draw(st.sampled_from([0.0, 0.0, 0.25, 0.5, 1.0])),
         "timeout": draw(st.sampled_from([0.5, 1.5, 2.5])),
-        "onconn": draw(st.sampled_from(["default", "gen"])) if proto != "udp" and kind not in ONCONN_KINDS else "default",
+        "onconn": draw(st.sampled_from(["default", "gen"])) if proto != "udp" and kind not in ONCONN_KINDS and kind not in SETUP_KINDS else "default",
         "y": draw(st.sampled_from([0, 0, 1, 2, 3])),
         "later": draw(st.lists(st.sampled_from([0.0, 0.25, 0.5, 1.0, 3.0]), max_size=2)),
         "hello_prefix": draw(st.sampled_from([0, 0, 1, 5, 50, 10_000])),
         "garbage": draw(st.sampled_from([b"GET / HTTP/1.1\r\n\r\n", b"\x16\x03\x01\x00\x05hello", b"\x00" * 64, b"\x16\x03\x03\xff\xff" + b"A" * 40])),
     }
+    hs_timeout = draw(st.sampled_from([0.5, 2.5, None]))
+    # aim one healthy request at the fault (two thirds of the cases): it is fed `lead` before the nominal fault time and takes
+    # at least that long to answer (lead == service time gives the tie: the answer is due in the very instant of the fault)
+    if draw(st.sampled_from([True, True, False])):
+        tf = _nominal_fault_time(proto, faulty, hs_timeout)
+        lead = draw(st.sampled_from([0.0, 0.25, 0.5, 1.0]))
+        h = healthy[0]
+        j = draw(st.integers(0, h["n"] - 1))
+        start = tf - lead - (j + 1) * h["gap"]
+        if start >= 0:
+            h["start"] = start
+            h["work"] = lead + draw(st.sampled_from([0.0, 0.25, 0.25, 1.0, 2.0]))
     return {
         "proto": proto,
         "buffered": draw(st.booleans()),
         "healthy": healthy,
         "faulty": faulty,
         "late_work": draw(st.sampled_from([0.0, 0.5])),
-        "hs_timeout": draw(st.sampled_from([0.5, 2.5, None])),
+        "hs_timeout": hs_timeout,
         "ssl_shutdown_timeout": draw(st.sampled_from([None, 1.5])),
         "standard_compatible": draw(st.sampled_from([True, True, False])),
         "peer_answers_close": draw(st.booleans()),
@@ -860,7 +886,7 @@ def run_rst_case(case: dict) -> Outcome:
 
     logging.disable(logging.CRITICAL)
     work = case["work_ms"] / 1000.0
-    counts = {"conn": 0, "disc": 0, "saw": []}
+    counts: dict[str, Any] = {"conn": 0, "disc": 0, "saw": []}
 
     class Echo(AsyncStreamRequestHandler):  # type: ignore[type-arg]
         async def on_connection(self, client: Any) -> None:
@@ -872,10 +898,10 @@ def run_rst_case(case: dict) -> Outcome:
         async def handle(self, client: Any) -> Any:
             try:
                 request = yield
-            except GeneratorExit:
-                raise
-            except BaseException as exc:
-                counts["saw"].append(type(exc).__name__)
+            except asyncio.CancelledError:
+                # nobody cancels a handler before the final shutdown: a cancellation means the task group was torn down
+                if not counts.get("teardown"):
+                    counts["saw"].append("CancelledError")
                 raise
             if work:
                 await asyncio.sleep(work)
@@ -958,6 +984,7 @@ def run_rst_case(case: dict) -> Outcome:
                 result["serve_exc"] = _describe_task(serve_task)
             result["is_serving"] = bool(srv.is_serving())
         finally:
+            counts["teardown"] = True
             try:
                 await asyncio.wait_for(srv.shutdown(), RST_WAIT_S)
             except TimeoutError:
@@ -1003,7 +1030,7 @@ CHECK = Check(
         "at least one healthy client has a request fed and not yet answered; distinct = sha1 of the canonical case JSON"
     ),
     layers=[
-        Layer("faults", st_case, run_faults_case, {"quick": 1200, "thorough": 8000}),
+        Layer("faults", st_case, run_faults_case, {"quick": 2000, "thorough": 12000}),
         Layer("rst", st_rst_case, run_rst_case, {"quick": 20, "thorough": 40}, case_timeout_s=120.0),
     ],
     assumptions=[
